@@ -78,14 +78,14 @@ def harness_cfg(d, p):
     return path
 
 
-def model_check(d, p, workers, timeout=1500):
+def model_check(d, p, workers, timeout=3000):
     root, cfg = write_model(d, p, "none", view=False)
     r = core.run_tlc(d, root, cfg, workers=workers, timeout=timeout)
     core.tlc_must_pass(r, f"MC_MemCache[{p['name']}]")
     return r
 
 
-def emit_edges(d, p, timeout=1500):
+def emit_edges(d, p, timeout=3000):
     root, cfg = write_model(d, p, "edges", view=True)
     out = os.path.join(d, "edges.txt")
     r = core.run_tlc(d, root, cfg, workers=1, timeout=timeout, out_file=out)
